@@ -109,7 +109,7 @@ CLAIMS = {
              "sub-structures built while loading are given the hashing strategy the structure ends up with (constructor and every alternate constructor that takes it); "
              "a field packed into an unsigned footer slot is not given the answer of a method that can return a negative constant (open finding D16: the estimate's -1 "
              "reaches elements_added of a saturated union / intersection, which then cannot be exported); the error rate a reloaded cuckoo filter reports is the one its loaded geometry gives "
-             "(open finding D19: frombytes keeps the rate computed for the default bucket size). "
+             "(D19, repaired in /repo 3f701ff: frombytes kept the rate computed for the default bucket size). "
              "Query-by-query equality and byte-exact re-export are consequences, not checked facts.",
         design_ref="DESIGN.md section 4 C05, E6"),
     "C07": dict(
